@@ -44,11 +44,15 @@ func (wh *workHeap) Len() int {
 	return len(wh.items)
 }
 
-// Less returns true if the work item at index i is less than the work item at index j
+// Less returns true if the work item at index i is less than the work item at index j: smaller priority number first,
+// earlier arrival first among equal priorities
 func (wh *workHeap) Less(i, j int) bool {
 	wh.mux.RLock()
 	defer wh.mux.RUnlock()
-	return wh.items[i].priority < wh.items[j].priority
+	if wh.items[i].priority != wh.items[j].priority {
+		return wh.items[i].priority < wh.items[j].priority
+	}
+	return wh.items[i].seq < wh.items[j].seq
 }
 
 // Swap swaps the work items at index i and j
